@@ -354,6 +354,8 @@ func invalidClasses() []invalidClass {
 		{"deb-signature-type", func(c *nfpm.Config) { c.Deb.Signature.KeyFile = key; c.Deb.Signature.Type = "bogus" }},
 		{"archlinux-pkgname", func(c *nfpm.Config) { c.Name = "Foo Bar!" }},
 		{"archlinux-platform", func(c *nfpm.Config) { c.Platform = "darwin" }},
+		{"archlinux-pkgname-non-ascii", func(c *nfpm.Config) { c.Name = "caf\u00e9-tools" }},
+		{"archlinux-pkgname-fullwidth", func(c *nfpm.Config) { c.Name = "\uff46\uff4f\uff4f\u0661\u0662" }},
 		{"apk-key-format", func(c *nfpm.Config) {
 			c.APK.Signature.KeyFile = filepath.Join(repoDir(), "internal/sign/testdata/wrong_key_format.priv")
 		}},
